@@ -33,7 +33,9 @@ LOCAL OnRel(e, m) ==
 
 LOCAL OnSrcPath(e, m) ==
     IF e.outcome = "panic" THEN V(m, "source path resolution panicked", <<e.pkg, e.path>>)
-    ELSE VIf(m, e.outcome = "ok" /\ ~StaysInside(e.result), "a source or generated-file path resolves to a location outside the project root", <<e.pkg, e.path, e.result>>)
+    ELSE LET m1 == VIf(m, e.outcome = "ok" /\ ~StaysInside(e.result), "a source or generated-file path resolves to a location outside the project root", <<e.pkg, e.path, e.result>>)
+         IN VIf(m1, e.outcome = "ok" /\ "l" \in DOMAIN e /\ InDom(e.l) /\ ~RoundOK(e.l, e.re),
+                "the label of a source path does not survive printing and parsing", <<e.pkg, e.path>>)
 
 LOCAL OnRecPath(e, m) ==
     VIf(m, e.a # e.b /\ e.pa = e.pb, "two different labels share one record path", <<e.a, e.b>>)
